@@ -1583,3 +1583,114 @@ Proof.
   set (n := Z.of_nat (length (if pq_mdns pq then [dns_MDNS_IPV6_ADDR; dns_MDNS_IPV4_ADDR] else ds_servers s))) in *.
   nia.
 Qed.
+
+(* ====================================================================================== *)
+(* Part F: summaries used by Props/C19.v and non-vacuity examples                          *)
+(* ====================================================================================== *)
+
+Lemma wdns_wire_parsers_total : forall buffer,
+  (wdns_question_parse buffer <> Panic /\ wdns_question_parse buffer <> Err wdns_E_FUEL) /\
+  (wdns_record_parse buffer <> Panic /\ wdns_record_parse buffer <> Err wdns_E_FUEL) /\
+  (wdns_parse_name_part buffer <> Panic /\ wdns_parse_name_part buffer <> Err wdns_E_FUEL).
+Proof.
+  intros. pose proof (wdns_question_parse_spec buffer) as A. pose proof (wdns_record_parse_spec buffer) as B.
+  pose proof (wdns_parse_name_part_spec buffer) as C.
+  destruct (wdns_question_parse buffer) as [[? ?]|e|]; destruct (wdns_record_parse buffer) as [[? ?]|e'|];
+    destruct (wdns_parse_name_part buffer) as [[? ?]|e''|]; try contradiction;
+    repeat split; try discriminate; subst; unfold wdns_E, wdns_E_FUEL; intro X; inv X.
+Qed.
+
+(* every event on a well-formed socket: no panic, no hang, invariant kept *)
+Lemma dns_step_total : forall cfg s ev,
+  cfg_ok cfg -> sock_ok cfg s -> ev_ok ev ->
+  sock_ok cfg (fst (dns_step cfg s ev)) /\
+  match ev with
+  | EvPoll _ => exists txs, snd (dns_step cfg s ev) = ObPoll txs false
+  | EvRsp _ _ _ _ => exists acc, snd (dns_step cfg s ev) = ObRsp acc
+  | _ => True
+  end.
+Proof.
+  intros cfg s ev Hc Hs Hev. split; [apply dns_step_sock_ok; assumption|].
+  destruct ev as [name t tx pt|raw t m tx pt|i|i|now|src sp dp pkt]; auto; cbn [dns_step].
+  - destruct (dns_poll_spec cfg s now Hc Hs) as (txs & E). rewrite E. cbn. eauto.
+  - destruct Hc as [Hc1 _]. destruct (dns_ingress_total cfg s src sp dp pkt Hc1 Hs Hev) as (s' & acc & E & _).
+    rewrite E. cbn. eauto.
+Qed.
+
+Lemma dns_run_sock_ok : forall cfg evs s,
+  cfg_ok cfg -> sock_ok cfg s -> Forall ev_ok evs -> sock_ok cfg (dns_run cfg s evs).
+Proof.
+  induction evs as [|ev evs IH]; intros s Hc Hs Hev; cbn [dns_run]; auto.
+  inv Hev. apply IH; auto. apply dns_step_sock_ok; auto.
+Qed.
+
+Lemma dns_new_sock_ok : forall cfg servers n owned, sock_ok cfg (dns_new cfg servers n owned).
+Proof.
+  intros. unfold sock_ok, dns_new. cbn [ds_queries]. apply Forall_forall. intros o Ho.
+  apply repeat_spec in Ho. subst. exact I.
+Qed.
+
+Lemma dns_cfg_default_ok : forall b, cfg_ok (dns_cfg_default b).
+Proof. intros. unfold cfg_ok, dns_cfg_default. cbn. unfold cfg_DNS_MAX_NAME_SIZE. lia. Qed.
+
+(* --- examples --- *)
+Definition c19_cfg : dns_cfg := dns_cfg_default true.
+Definition c19_server : list Z := [10; 0; 0; 10].
+Definition c19_s0 : dns_sock := dns_new c19_cfg [c19_server] 1 false.
+(* query "a.b" type A, transaction id 0x1234, source port 50000; first poll at 0 *)
+Definition c19_started : dns_sock :=
+  dns_run c19_cfg c19_s0 [EvQuery [97; 46; 98] 1 4660 50000; EvPoll 0].
+
+Fixpoint dns_run_obs (cfg : dns_cfg) (s : dns_sock) (evs : list dns_event) : list (option Z) :=
+  match evs with
+  | [] => []
+  | ev :: evs' => let s' := fst (dns_step cfg s ev) in dns_poll_at s' :: dns_run_obs cfg s' evs'
+  end.
+
+Lemma c19_example :
+  (* the compressed response with a CNAME chain (WireDnsProofs.wdns_example_response):
+     a.b CNAME c.b ; c.b A 1.2.3.4 ; x.b A 9.9.9.9  -> exactly 1.2.3.4 *)
+  nth_error (ds_queries (dns_run c19_cfg c19_started [EvRsp c19_server 53 50000 wdns_example_response])) 0
+    = Some (Some (QCompleted [[1; 2; 3; 4]])) /\
+  (* same datagram: wrong source address / source port / destination port / id: ignored *)
+  dns_run c19_cfg c19_started [EvRsp [10; 0; 0; 99] 53 50000 wdns_example_response] = c19_started /\
+  dns_run c19_cfg c19_started [EvRsp c19_server 54 50000 wdns_example_response] = c19_started /\
+  dns_run c19_cfg c19_started [EvRsp c19_server 53 50001 wdns_example_response] = c19_started /\
+  dns_run c19_cfg c19_started [EvRsp c19_server 53 50000 (18 :: 53 :: skipn 2 wdns_example_response)] = c19_started /\
+  (* no answers, polls at poll_at: transmissions at 0, 1, 3, 7 s, failure at 10 s *)
+  dns_run_obs c19_cfg c19_s0
+    [EvQuery [97; 46; 98] 1 4660 50000; EvPoll 0; EvPoll 1000000; EvPoll 3000000; EvPoll 7000000; EvPoll 10000000]
+    = [Some 0; Some 1000000; Some 3000000; Some 7000000; Some 10000000; None] /\
+  nth_error (ds_queries (dns_run c19_cfg c19_started
+     [EvPoll 1000000; EvPoll 3000000; EvPoll 7000000; EvPoll 10000000])) 0 = Some (Some QFailure).
+Proof. vm_compute. repeat split; reflexivity. Qed.
+
+Lemma dns_reachable_ok : forall cfg servers n owned evs,
+  cfg_ok cfg -> Forall ev_ok evs -> sock_ok cfg (dns_run cfg (dns_new cfg servers n owned) evs).
+Proof. intros. apply dns_run_sock_ok; auto. apply dns_new_sock_ok. Qed.
+
+Lemma dns_completed_implies_match : forall cfg servers n owned evs h addrs,
+  Forall ev_ok evs ->
+  nth_error (ds_queries (dns_run cfg (dns_new cfg servers n owned) evs)) h = Some (Some (QCompleted addrs)) ->
+  exists evs1 src sp dp pkt evs2 pq,
+    evs = evs1 ++ EvRsp src sp dp pkt :: evs2 /\
+    let s1 := dns_run cfg (dns_new cfg servers n owned) evs1 in
+    nth_error (ds_queries s1) h = Some (Some (QPending pq)) /\
+    dns_source_ok s1 src sp /\ dp = pq_port pq /\ dns_header_ok pkt (pq_txid pq) /\
+    dns_answer_matches cfg pkt pq addrs.
+Proof.
+  intros cfg servers n owned evs h addrs Hev H.
+  destruct (dns_run_completed cfg evs _ h addrs Hev H) as [A|A].
+  - exfalso. eapply dns_new_no_completed; eauto.
+  - exact A.
+Qed.
+
+Lemma dns_constants :
+  dns_RETRANSMIT_TIMEOUT = 10 * 1000000 /\ dns_RETRANSMIT_DELAY = 1000000 /\
+  dns_MAX_RETRANSMIT_DELAY = 10 * 1000000 /\ dns_DNS_PORT = 53 /\ dns_MDNS_DNS_PORT = 5353 /\
+  wdns_f_HEADER_END = 12 /\ wdns_CLASS_IN = 1 /\
+  (forall b, cfg_ok (dns_cfg_default b)) /\ 1 <= cfg_DNS_MAX_RESULT_COUNT /\ 1 <= cfg_DNS_MAX_SERVER_COUNT.
+Proof.
+  split; [reflexivity|]. split; [reflexivity|]. split; [reflexivity|]. split; [reflexivity|]. split; [reflexivity|].
+  split; [reflexivity|]. split; [reflexivity|]. split; [exact dns_cfg_default_ok|]. split; vm_compute; discriminate.
+Qed.
